@@ -286,31 +286,41 @@ def check_dup(chk, prog, summ, f, nullable):
             if v.get("k") == "ref" and v.get("rk") == "local":
                 result_vars.add(v["d"])
 
-    # locals that only ever point at nodes of the copy: initialised from a field of the result object and advanced along it
-    copy_cursors = set()
+    # locals that only ever point at storage of the copy: every assignment to them is a call result (a fresh node), NULL, another
+    # such local, or a member chain rooted at the result object or at such a local (dest = dup(src); dest = dest->next; prev = dest).
+    # Greatest fixpoint: start from every pointer local and drop those with any other assignment (src = self->head).
+    def _copy_rooted(r_, cands):
+        r_ = X.strip(r_)
+        if r_ is None:
+            return False
+        if X.is_null_const(r_) or r_.get("k") == "call":
+            return True
+        if r_.get("k") == "cond":
+            return _copy_rooted(r_["ch"][1], cands) and _copy_rooted(r_["ch"][2], cands)
+        b_ = r_
+        while b_ is not None and b_.get("k") == "member":
+            b_ = X.strip(b_["ch"][0])
+        return b_ is not None and b_.get("k") == "ref" and (b_.get("d") in result_vars or b_.get("d") in cands)
+    copy_cursors = {d_ for d_, v_ in f.vardecls.items() if v_.get("tp")} - result_vars
     changed_ = True
     while changed_:
         changed_ = False
         for n_ in walk(f.body):
-            if n_.get("k") == "assign" and n_.get("op") == "=":
-                l_, r_ = X.strip(n_["ch"][0]), X.strip(n_["ch"][1])
-                if l_.get("k") == "ref" and l_.get("rk") == "local" and l_["d"] not in copy_cursors and r_ is not None:
-                    b_ = r_
-                    while b_ is not None and b_.get("k") == "member":
-                        b_ = X.strip(b_["ch"][0])
-                    if b_ is not None and b_.get("k") == "ref" and (b_.get("d") in result_vars or b_.get("d") in copy_cursors) and r_.get("k") == "member":
-                        copy_cursors.add(l_["d"])
-                        changed_ = True
-    for n_ in walk(f.body):
-        # a cursor that is also assigned something else (a node of self) is not a pure copy cursor
-        if n_.get("k") == "assign" and n_.get("op") == "=":
-            l_, r_ = X.strip(n_["ch"][0]), X.strip(n_["ch"][1])
-            if l_.get("k") == "ref" and l_.get("d") in copy_cursors and r_ is not None:
-                b_ = r_
-                while b_ is not None and b_.get("k") == "member":
-                    b_ = X.strip(b_["ch"][0])
-                if not (b_ is not None and b_.get("k") == "ref" and (b_.get("d") in result_vars or b_.get("d") in copy_cursors)) and not X.is_null_const(n_["ch"][1]):
+            if n_.get("k") == "assign":
+                l_ = X.strip(n_["ch"][0])
+                if l_.get("k") == "ref" and l_.get("d") in copy_cursors and not (n_.get("op") == "=" and _copy_rooted(n_["ch"][1], copy_cursors)):
                     copy_cursors.discard(l_["d"])
+                    changed_ = True
+            elif n_.get("k") == "decl":
+                for dcl in n_.get("decls", ()):
+                    if dcl["d"] in copy_cursors and dcl.get("init") is not None and not _copy_rooted(dcl["init"], copy_cursors):
+                        copy_cursors.discard(dcl["d"])
+                        changed_ = True
+            elif n_.get("k") == "un" and n_.get("op") == "&":
+                t_ = X.strip(n_["ch"][0])
+                if t_.get("k") == "ref" and t_.get("d") in copy_cursors:
+                    copy_cursors.discard(t_["d"])      # address taken: may be written elsewhere
+                    changed_ = True
 
     def is_self_expr(e):
         for x in walk(e):
